@@ -6,6 +6,7 @@ import (
 	"fmt"
 	"io"
 	"log/slog"
+	"reflect"
 	"runtime"
 	"slices"
 	"strconv"
@@ -193,6 +194,20 @@ func appendTextValue(buf *[]byte, v slog.Value, colorful bool) {
 		*buf = v.Time().AppendFormat(*buf, time.RFC3339)
 	case slog.KindAny, slog.KindLogValuer:
 		va := v.Any()
+		// A method of the value may panic, typically Error or MarshalText called on a nil pointer
+		// that does not expect it. Like log/slog, report <nil> (or the panic) instead of letting
+		// the logging call panic with a half-written value.
+		start := len(*buf)
+		defer func() {
+			if r := recover(); r != nil {
+				*buf = (*buf)[:start]
+				if rv := reflect.ValueOf(va); rv.Kind() == reflect.Pointer && rv.IsNil() {
+					appendTextString(buf, "<nil>")
+				} else {
+					appendTextString(buf, fmt.Sprintf("!PANIC: %v", r))
+				}
+			}
+		}()
 		if vv, ok := va.(encoding.TextMarshaler); ok {
 			if data, err := vv.MarshalText(); err != nil {
 				appendTextString(buf, err.Error())
